@@ -29,6 +29,6 @@ META = dict(
 def tasks(tier):
     if tier == "quick":
         combos = [dict(policy=p, cons=c) for p in ("DualNorm", "ObjectiveFilter", "Constant") for c in ([], ["eq0"])]
-        return loop.loop_tasks(combos, 2) + loop.loop_tasks([dict(policy=p, cons=[]) for p in ("DualNorm", "ObjectiveFilter")], 4) + ctrl.ctrl_tasks(tier)
+        return loop.loop_tasks(combos, 2) + loop.loop_tasks([dict(policy=p, cons=[]) for p in ("DualNorm", "ObjectiveFilter")], 4) + loop.loop_tasks([dict(policy="DualNorm", cons=["eq0"], step_failures=True)], 2) + loop.loop_tasks([dict(policy="LagrangianFilter", cons=[], step_failures=True)], 3) + ctrl.ctrl_tasks(tier)
     combos = [dict(policy=p, cons=c) for p in loop.POLICIES for c in (["eq0"], ["ge"])]
-    return ctrl.ctrl_tasks(tier) + loop.loop_tasks(combos, 3) + loop.loop_tasks([dict(policy=p, cons=[]) for p in ("DualNorm", "ObjectiveFilter")], 4)
+    return ctrl.ctrl_tasks(tier) + loop.loop_tasks(combos, 3) + loop.loop_tasks([dict(policy=p, cons=[]) for p in ("DualNorm", "ObjectiveFilter")], 4) + loop.loop_tasks([dict(policy=p, cons=c, step_failures=True) for p in ("DualNorm", "LagrangianFilter", "Constant") for c in (["eq0"], [])], 3)
